@@ -202,13 +202,20 @@ func VH_C10_bigbuf_poller() { vDiodeBigBuf(true) }
 // from the destination ends neither the consumer nor the accounting (C11).
 type vFailSink struct {
 	calls int
-	mode  int // 1: first call fails, 2: every call fails
+	mode  int // 1: first call fails, 2: every call fails, 3: every call is a short write (1 byte, no error)
+	odd   bool
 }
 
 func (s *vFailSink) Write(p []byte) (int, error) {
 	s.calls++
+	if len(p) != 2 {
+		s.odd = true // not the argument of any Write
+	}
 	if s.mode == 2 || (s.mode == 1 && s.calls == 1) {
 		return 0, errSink
+	}
+	if s.mode == 3 {
+		return 1, nil
 	}
 	return len(p), nil
 }
@@ -220,7 +227,7 @@ type vErrSink struct{}
 func (vErrSink) Error() string { return "sink" }
 
 func vDiodeFailingSink(poller bool) {
-	sink := &vFailSink{mode: 1 + zzverif.Choice(2)}
+	sink := &vFailSink{mode: 1 + zzverif.Choice(3)}
 	interval := time.Duration(0)
 	if poller {
 		interval = time.Millisecond
@@ -238,7 +245,8 @@ func vDiodeFailingSink(poller bool) {
 	wg.Wait()
 	zzverif.Assert(w.Close() == nil, "C12: Close returns")
 	zzverif.Assert(sink.calls+alerts >= 3, "C11: after Close every message was handed to the wrapped writer or reported, also when the wrapped writer returns errors")
-	zzverif.Assert(sink.calls == 3 && alerts == 0, "C11: while fewer messages than the ring size are outstanding none is dropped (failing wrapped writer)")
+	zzverif.Assert(!sink.odd, "C10: every buffer the wrapped writer receives is the argument of one Write, also after a short write")
+	zzverif.Assert(sink.calls == 3 && alerts == 0, "C11: while fewer messages than the ring size are outstanding none is dropped, and each is handed over exactly once (failing wrapped writer)")
 	zzverif.Reach("diode/failing-sink")
 }
 
